@@ -257,6 +257,48 @@ def l3_const_fn(chk, ctx, rng, n):
     finally:
         I.use_delj_trick = old
 
+
+def l3_nonneg(chk, ctx, rng, n):
+    """C02_nonneg_integrate_neutral(_fn) on the real code: without migration and selection a non-negative density stays non-negative
+    at every grid point (1-5 populations, constant and function-of-time sizes, frozen flags, both delj settings, densities with
+    exact zeros)"""
+    dadi = ctx['dadi']; I = dadi.Integration
+    fs = [I.one_pop, I.two_pops, I.three_pops, I.four_pops, I.five_pops]
+    old = I.use_delj_trick
+    try:
+        for it in range(n):
+            d = 1 + it % 5
+            pts = [int(rng.integers(10, 24)), int(rng.integers(8, 14)), int(rng.integers(6, 9)), 5, 4][d - 1]
+            kind = ['default', 'quadratic', 'uniform'][int(rng.integers(3))]
+            if kind == 'default': xx = dadi.Numerics.default_grid(pts)
+            elif kind == 'quadratic': xx = np.linspace(0, 1, pts) ** 2
+            else: xx = np.linspace(0, 1, pts)
+            phi = gen.density(rng, [pts] * d)
+            phi = np.abs(phi) * (rng.random(phi.shape) < 0.6)          # exact zeros, isolated spikes
+            use = bool(rng.integers(2)); I.use_delj_trick = use
+            T = float(rng.uniform(0.005, 0.2))
+            nus = [gen.loguniform(rng, 0.05, 20) for _ in range(d)]
+            fn = bool(rng.integers(2))
+            kw = {}
+            for i, v in enumerate(nus):
+                name = 'nu' if d == 1 else 'nu%d' % (i + 1)
+                kw[name] = (lambda t, v=v: v * (1 + t)) if (fn and i == 0) else v
+            kw['theta0'] = float(rng.uniform(0, 2))
+            if d >= 2 and rng.random() < 0.3:
+                kw['frozen%d' % (1 + int(rng.integers(d)))] = True
+            inp = dict(d=d, pts=pts, grid=kind, T=T, nus=nus, fn=fn, theta0=kw['theta0'], use_delj_trick=use,
+                       frozen=[k for k in kw if k.startswith('frozen')], phi=phi)
+            chk.l3(('nonneg', d, fn, use, kind))
+            try:
+                out = fs[d - 1](phi.copy(), xx, T, **kw)
+            except Exception as e:
+                chk.fail('nonneg:%dD:raises:%s' % (d, type(e).__name__), 'neutral integration raises %r' % (e,), inp); continue
+            lo = float(np.min(out)); sc = float(np.max(np.abs(out))) or 1.0
+            if not np.all(np.isfinite(out)) or lo < -1e-10 * sc:
+                chk.fail('nonneg:%dD:negative' % d, 'neutral integration without migration turned a non-negative density negative: min %.3g (scale %.3g)' % (lo, sc), inp)
+    finally:
+        I.use_delj_trick = old
+
 def run(chk, ctx):
     tier = ctx['tier']
     rng = common.Rng(ctx['seed'], 'C02')
@@ -276,6 +318,7 @@ def run(chk, ctx):
     from . import c02_precalc
     c02_precalc.run(chk, ctx, rng)
     l3_const_fn(chk, ctx, rng, 12 if tier == 'quick' else 60)
+    l3_nonneg(chk, ctx, rng, 15 if tier == 'quick' else 100)
 
 def replay(chk, ctx, data):
     inp = data.get('input', {})
